@@ -562,6 +562,13 @@ where
         if self.inner.policy == HybridCachePolicy::WriteOnInsertion && entry.properties().location() != Location::InMem
         {
             self.inner.storage.enqueue(entry.piece(), false);
+        } else if self.inner.policy == HybridCachePolicy::WriteOnEviction
+            && entry.properties().phantom()
+            && entry.properties().location() != Location::InMem
+        {
+            // A disk-only entry is not kept in memory and reaches the disk cache only when its last handle is
+            // dropped. Until then an older version on disk must not be served by lookups.
+            self.inner.storage.delete(entry.key());
         }
 
         self.inner.metrics.hybrid_insert.increase(1);
